@@ -158,6 +158,17 @@ pub fn check_line(opts: &Opts, lc: &LineCase) -> Result<(), String> {
             }
         }
     }
+    // (3c) the same line as the unterminated last line of the input (no line feed after it)
+    {
+        let t3 = run::new_table();
+        run::run_lines(opts, &t3, &prefix_lines()).map_err(|e| format!("reader failed on the prefix: {:?}", e))?;
+        run::run_bytes(opts, &t3, deco.as_bytes()).map_err(|e| format!("reader failed on the unterminated line {:?}: {:?}", deco, e))?;
+        let a = run::no_clock(&run::snapshot(&t3));
+        let b = run::no_clock(&after);
+        if a != b {
+            return Err(format!("line {:?} is treated differently when it is the last line without a line feed: {}", deco, run::table_diff(&b, &a).join("; ")));
+        }
+    }
     // (3b) decoration invariance on the table
     if deco != lc.digits {
         let t2 = run::new_table();
